@@ -28,6 +28,11 @@ type C06L1 struct {
 	X1 int64
 }
 
+type C06L0 struct {
+	C06L1
+	X0 int64
+}
+
 // a field name declared at depth 0 and again in an embedded struct: depth 0 wins in Go
 type C06Shadowed struct{ Name, Only int64 }
 type c06Shadow struct {
@@ -101,6 +106,10 @@ var c06Access = []struct {
 	{"deep.Y3", func(d *c06Outer) int64 { return 12 }},
 	{"deep.Y2 * z + deep.X2", func(d *c06Outer) int64 { return 21 }},
 	{"deep.X1", func(d *c06Outer) int64 { return 31 }},
+	{"deep4.X3 * z + deep4.Y3 * z + deep4.Z3 * z + deep4.X3", func(d *c06Outer) int64 { return 11 }},
+	{"deep4.Z3 * z + deep4.Y3", func(d *c06Outer) int64 { return 12 }},
+	{"deep4.X2 * z + deep4.Y2 * z + deep4.X1 * z + deep4.X0 * z + deep4.Z3", func(d *c06Outer) int64 { return 13 }},
+	{"deep4.X2", func(d *c06Outer) int64 { return 21 }},
 	{"sh.Name", func(d *c06Outer) int64 { return 100 }},
 	{"sh.Only * z + sh.Name", func(d *c06Outer) int64 { return 100 }},
 	{"sh.Only", func(d *c06Outer) int64 { return 300 }},
@@ -145,6 +154,7 @@ func H_C06_access() {
 	vars.Set("ik", 7)
 	vars.Set("z", int64(0))
 	vars.Set("deep", C06L1{C06L2: C06L2{C06L3: C06L3{11, 12, 13}, X2: 21, Y2: 22}, X1: 31})
+	vars.Set("deep4", C06L0{C06L1: C06L1{C06L2: C06L2{C06L3: C06L3{11, 12, 13}, X2: 21, Y2: 22}, X1: 31}, X0: 41})
 	vars.Set("sh", c06Shadow{Name: 100, C06Shadowed: C06Shadowed{Name: 200, Only: 300}})
 	vars.Set("sh2", c06Shadow2{Name: 100, C06Shadowed: C06Shadowed{Name: 200, Only: 300}})
 	vars.SetFunc("cap", c04Capture(&got))
